@@ -364,7 +364,7 @@ def explore_shard(acc, shard):
         layer = "keys that resemble SSC-only property names"
         case = None
         for prop in MC.SIMFILE_KIND:
-            for key in (prop + " ", " " + prop, prop.lower(), prop.title(), prop + "S", "X" + prop):
+            for key in (prop + " ", " " + prop, prop.lower(), prop.title(), prop + "S", "X" + prop, prop[:-1], prop[1:], prop[0], prop[-1], prop[1:3], ""):
                 if key in MC.SIMFILE_KIND:
                     continue
                 for mp in (None, {k: MC.ERROR for k in MC.KINDS}, {k: MC.IGNORE for k in MC.KINDS}):
